@@ -587,14 +587,34 @@ func (w *World) findFault(host, caller, kind string) *Fault {
 }
 
 // replicate moves data along running replication threads of n. Call with w.Mu held.
+// SourceReachableLocked: can the receiver thread of n reach its source right now?
+func (w *World) SourceReachableLocked(n *Node) bool {
+	if n.Chan == nil {
+		return false
+	}
+	src, ok := w.Nodes[n.Chan.Source]
+	if !ok || !src.Up {
+		return false
+	}
+	if p := w.Partition[n.Host]; p != nil && p[src.Host] {
+		return false
+	}
+	return true
+}
+
+// ConnectingLocked: the receiver thread of n is started but cannot reach its source: MySQL shows it as
+// Slave_IO_Running = Connecting with Last_IO_Errno 2003 and it reconnects by itself as soon as the source is back.
+func (w *World) ConnectingLocked(n *Node) bool {
+	return n.Chan != nil && n.Up && n.Chan.IO && !w.SourceReachableLocked(n)
+}
+
 func (w *World) ReplicateLocked(n *Node) {
 	if n.Chan == nil || !n.Up {
 		return
 	}
-	if n.Chan.IO {
-		if src, ok := w.Nodes[n.Chan.Source]; ok && src.Up {
-			n.Retrieved = GtidUnion(n.Retrieved, src.Executed)
-		}
+	if n.Chan.IO && w.SourceReachableLocked(n) {
+		src := w.Nodes[n.Chan.Source]
+		n.Retrieved = GtidUnion(n.Retrieved, src.Executed)
 	}
 	if n.Chan.SQL && n.Chan.SQLErrno == 0 && !n.ApplyHold {
 		n.Executed = GtidUnion(n.Executed, n.Retrieved)
@@ -605,7 +625,7 @@ func (w *World) ReplicateLocked(n *Node) {
 func (w *World) AckersLocked(m *Node) []string {
 	var r []string
 	for _, x := range w.Nodes {
-		if x.Up && x.Chan != nil && x.Chan.Source == m.Host && x.Chan.IO && x.SSSlaveEffective {
+		if x.Up && x.Chan != nil && x.Chan.Source == m.Host && x.Chan.IO && x.SSSlaveEffective && w.SourceReachableLocked(x) {
 			r = append(r, x.Host)
 		}
 	}
@@ -755,9 +775,13 @@ func (w *World) apply(n *Node, sess *session, q, kind, arg string) (result, stri
 		if w.AutoReplicate {
 			w.ReplicateLocked(n)
 		}
+		ioYes, ioErrno, ioShown := n.Chan.IO, n.Chan.IOErrno, yesNo(n.Chan.IO)
+		if w.ConnectingLocked(n) {
+			ioYes, ioErrno, ioShown = false, 2003, "Connecting"
+		}
 		var lag *string
 		lagGal := "None"
-		if (n.Chan.IO && n.Chan.SQL) || n.LagAlways {
+		if (ioYes && n.Chan.SQL) || n.LagAlways {
 			l := int64(0)
 			if n.Lag != nil {
 				l = *n.Lag
@@ -773,12 +797,12 @@ func (w *World) apply(n *Node, sess *session, q, kind, arg string) (result, stri
 		if file == "" {
 			file = "binlog.000001"
 		}
-		resp := "(RRepl (Some {| rs_source := " + HostGal(n.Chan.Source) + "; rs_io := " + B(n.Chan.IO) + "; rs_sql := " + B(n.Chan.SQL) +
-			"; rs_io_errno := " + Z(int64(n.Chan.IOErrno)) + "; rs_sql_errno := " + Z(int64(n.Chan.SQLErrno)) + "; rs_lag := " + lagGal +
+		resp := "(RRepl (Some {| rs_source := " + HostGal(n.Chan.Source) + "; rs_io := " + B(ioYes) + "; rs_sql := " + B(n.Chan.SQL) +
+			"; rs_io_errno := " + Z(int64(ioErrno)) + "; rs_sql_errno := " + Z(int64(n.Chan.SQLErrno)) + "; rs_lag := " + lagGal +
 			"; rs_executed := " + GtidGal(n.Executed) + "; rs_retrieved := " + GtidGal(n.Retrieved) + "; rs_file := " + BinlogGal(file) + "; rs_pos := " + Z(n.ReadPos) + " |}))"
 		return one(cols, sp(n.Chan.Source), sp("3306"), sp(file), sp(fmt.Sprint(n.ReadPos)),
-			sp(yesNo(n.Chan.IO)), sp(yesNo(n.Chan.SQL)), sp(""), sp(n.Retrieved), sp(n.Executed),
-			sp(fmt.Sprint(n.Chan.IOErrno)), sp(""), sp(fmt.Sprint(n.Chan.SQLErrno)), lag), resp
+			sp(ioShown), sp(yesNo(n.Chan.SQL)), sp(""), sp(n.Retrieved), sp(n.Executed),
+			sp(fmt.Sprint(ioErrno)), sp(""), sp(fmt.Sprint(n.Chan.SQLErrno)), lag), resp
 	case "SGtidExecuted":
 		if w.AutoReplicate {
 			w.ReplicateLocked(n)
